@@ -1,15 +1,19 @@
 (* C20 — statements only. Each theorem is closed by [exact] of a lemma proved in Proofs.v and
-   followed by Print Assumptions.  Model: coq/url/Model.v (URLs over the alphabet that needs no
-   percent-decoding; see the header of Model.v).
+   followed by Print Assumptions.  Model: coq/url/Model.v, describing the code AFTER the fix commits
+   d1622fe (findMediaByURL compares URL components) and 63de92a (ParseURL's escape regexp confined to
+   the authority).
 
-   Partial / refuted parts, stated here once:
-   * `_partial` on play_inverse: the theorem covers every URL of the model's alphabet; URLs with
-     percent-escapes are outside the model.  On those the property is FALSE of the code (finding
-     at-percent-double-escape: an '@' behind the authority followed by '%' makes base.ParseURL
-     re-escape the '%'); the harness oracle reproduces it on every run.
-   * record_inverse needs two extra hypotheses (no "?" with empty query; no character that makes
-     net/url keep a RawPath).  Without either the property is FALSE of the code: the two `_refuted`
-     theorems give the witnesses rtsp://h/te!st and rtsp://h/p? . *)
+   Domain of the model (= domain of the theorems, `wfP`): URLs over the alphabet that needs no
+   percent-decoding (unreserved | $&+,/:;=@ | !'()* | ?), plus '%' inside the raw query (never decoded
+   by net/url; since 63de92a no longer rewritten when an '@' precedes it) as long as the query does
+   not also hold a ':' (`qcond`: the regexp's lazy first group can still find a second "://" inside
+   a query).  Percent-escapes in the PATH, IPv6 literals and escaped user-info stay outside the
+   model (net/url's decoding is not modelled, DESIGN.md section 6 "C20 / Partial"): they are judged by
+   the harness oracle only, which no longer finds a failing input there.
+
+   The former `record_inverse_partial` + the two `_refuted` theorems are replaced by the
+   full-strength `C20_url_record_inverse`; the statements about the old code are in history/, and the
+   old lookup survives as `url_hit_old` in the regression Example at the end. *)
 From Coq Require Import String.
 From GVL Require Import NList.
 From GV_url Require Import Model Proofs.
@@ -19,35 +23,22 @@ Open Scope N_scope.
    '/', any user-info, any media count n and any i < n: DESCRIBE, the SETUP of media i (control
    trackID=i resolved against the server's Content-Base) and PLAY are each analysed by the server
    into exactly (path, query) of the original URL, and the SETUP reaches media i. *)
-Theorem C20_url_play_inverse_partial : forall u n i,
+Theorem C20_url_play_inverse : forall u n i,
   wfP u -> in_scope u -> i < n -> i < 2147483648 ->
   exists sw pw,
     play_flow u n i =
     FOk (mkPlayObs (path u, query u) sw (path u, query u) (MFound i) pw (path u, query u)).
 Proof. exact play_inverse. Qed.
-Print Assumptions C20_url_play_inverse_partial.
+Print Assumptions C20_url_play_inverse.
 
 (* RECORD: same for ANNOUNCE, the SETUP of announced media i (findMediaByURL finds media i and no
-   other) and RECORD — when the URL has no "?" with empty query and no RawPath character. *)
-Theorem C20_url_record_inverse_partial : forall u n i,
-  wfP u -> in_scope u -> forceq u = false -> existsb is_special (path u) = false ->
-  i < N.of_nat n ->
+   other) and RECORD — including URLs ending in "?" and paths that net/url keeps raw (the five RawPath characters). *)
+Theorem C20_url_record_inverse : forall u n i,
+  wfP u -> in_scope u -> i < N.of_nat n ->
   exists sw,
     record_flow u n i = FOk (mkRecObs (path u, query u) sw (MFound i) (path u, query u)).
 Proof. exact record_inverse. Qed.
-Print Assumptions C20_url_record_inverse_partial.
-
-Theorem C20_url_record_rawpath_refuted :
-  exists u, wfP u /\ in_scope u /\ forceq u = false /\
-    exists o, record_flow u 2 1 = FOk o /\ ro_announce o = (path u, query u) /\ ro_media o = MNil.
-Proof. exact record_rawpath_refuted. Qed.
-Print Assumptions C20_url_record_rawpath_refuted.
-
-Theorem C20_url_record_forcequery_refuted :
-  exists u, wfP u /\ in_scope u /\ existsb is_special (path u) = false /\
-    exists o, record_flow u 2 1 = FOk o /\ ro_announce o = (path u, query u) /\ ro_media o = MNil.
-Proof. exact record_forcequery_refuted. Qed.
-Print Assumptions C20_url_record_forcequery_refuted.
+Print Assumptions C20_url_record_inverse.
 
 (* Server analysis is the inverse of "append /trackID=d" for ALL byte strings (no alphabet):
    behind the query (FFmpeg layout) ... *)
@@ -73,7 +64,7 @@ Print Assumptions C20_url_parse_print.
 Theorem C20_url_control_relative : forall base ctl c0 rest,
   wfP base -> path base <> [] ->
   ctl = c0 :: rest -> c0 <> c_qm -> c0 <> c_slash -> is_abs_control ctl = false ->
-  forallb path_char ctl = true ->
+  forallb path_char ctl = true -> colon_safe (query base) ctl ->
   let b' := if last_is c_slash (print base) then base else app_tail base [c_slash] in
   media_url ctl base = UOk (app_tail b' ctl) /\
   print (app_tail b' ctl) = print base ++ (if last_is c_slash (print base) then [] else [c_slash]) ++ ctl.
@@ -81,14 +72,14 @@ Proof. exact control_relative. Qed.
 Print Assumptions C20_url_control_relative.
 
 Theorem C20_url_control_leading_slash : forall base rest,
-  wfP base -> forallb path_char (c_slash :: rest) = true ->
+  wfP base -> forallb path_char (c_slash :: rest) = true -> colon_safe (query base) (c_slash :: rest) ->
   media_url (c_slash :: rest) base = UOk (app_tail base (c_slash :: rest)) /\
   print (app_tail base (c_slash :: rest)) = print base ++ c_slash :: rest.
 Proof. exact control_leading_slash. Qed.
 Print Assumptions C20_url_control_leading_slash.
 
 Theorem C20_url_control_query_style : forall base q',
-  wfP base -> hasq base = false -> forallb query_char q' = true ->
+  wfP base -> hasq base = false -> forallb query_char q' = true -> qcond q' = true ->
   media_url (c_qm :: q') base =
   UOk (mkUrl (scheme base) (user base) (host base) (path base) (rawpath base) (is_nil q') q').
 Proof. exact control_query_style. Qed.
@@ -129,6 +120,30 @@ Example C20_example_play_bang :
   play_flow u 1 0 = FOk (mkPlayObs (lit "/te!st", []) (lit "rtsps://h/te!st/trackID=0")
     (lit "/te!st", []) (MFound 0) (lit "rtsps://h/te!st/") (lit "/te!st", [])).
 Proof. vm_compute. split; reflexivity. Qed.
+
+(* the query of the repaired at-percent defect (an '@' followed by '%' in the query) is inside the model *)
+Example C20_example_play_at_percent :
+  let u := parsed (lit "rtsp://127.0.0.1:8554/p?x=a@b%20c") in
+  wf_url u = true /\
+  play_flow u 2 1 = FOk (mkPlayObs (lit "/p", lit "x=a@b%20c")
+    (lit "rtsp://127.0.0.1:8554/p?x=a@b%20c/trackID=1") (lit "/p", lit "x=a@b%20c") (MFound 1)
+    (lit "rtsp://127.0.0.1:8554/p?x=a@b%20c/") (lit "/p", lit "x=a@b%20c")) /\
+  record_flow u 2 1 = FOk (mkRecObs (lit "/p", lit "x=a@b%20c")
+    (lit "rtsp://127.0.0.1:8554/p?x=a@b%20c/trackID=1") (MFound 1) (lit "/p", lit "x=a@b%20c")).
+Proof. vm_compute. repeat split; reflexivity. Qed.
+
+(* regression: the lookup before d1622fe found no media for rtsp://h/te!st and rtsp://h/p? ; the
+   lookup now finds media 1 *)
+Example C20_regression_record_lookup :
+  wf_url u_rawpath = true /\ wf_url u_forcequery = true /\
+  old_lookup u_rawpath 2 1 = MNil /\ new_lookup u_rawpath 2 1 = MFound 1 /\
+  old_lookup u_forcequery 2 1 = MNil /\ new_lookup u_forcequery 2 1 = MFound 1.
+Proof. exact old_lookup_regression. Qed.
+
+Example C20_example_record_bang_and_forcequery :
+  (exists sw, record_flow u_rawpath 2 1 = FOk (mkRecObs (path u_rawpath, []) sw (MFound 1) (path u_rawpath, []))) /\
+  (exists sw, record_flow u_forcequery 2 1 = FOk (mkRecObs (path u_forcequery, []) sw (MFound 1) (path u_forcequery, []))).
+Proof. split; eexists; vm_compute; reflexivity. Qed.
 
 Example C20_example_record :
   let u := parsed (lit "rtsp://h/stream?k=v") in
